@@ -99,8 +99,15 @@ def generate(ctx):
     elif klass == "strand":
         fname = [f for f, k in fmt.fields if k == "strand"][0]
         ch = ["x", "K", "N", "M"][tape.draw(4, "badchar")]     # 'K' = '+' + 32, 'M' = '-' + 32, 'N' = '.' + 32
-        bad[fsp[fname][0]] = ord(ch)
-        info.update({"field": fname, "char": ch})
+        how = tape.weighted([(2, "replace"), (1, "append"), (1, "prepend")], "strand.how")
+        at = fsp[fname][0]
+        if how == "replace":
+            bad[at] = ord(ch)
+        elif how == "append":       # '+x': a valid first character followed by a foreign one
+            bad[at + 1:at + 1] = ch.encode()
+        else:
+            bad[at:at] = ch.encode()
+        info.update({"field": fname, "char": ch, "how": how})
     elif klass == "columns_fewer":
         tabs = [i for i in range(start, end) if data[i:i + 1] == b"\t"]
         t = tabs[tape.draw(len(tabs), "tab")]
